@@ -28,7 +28,15 @@ txt += ("\nLessons that were turned into input classes everywhere they apply: in
         "histories that change an object IN PLACE between two uses of it (Hamiltonian quench under the same MPO object, edited tensors, edited coefficient arrays,\n"
         "edited chain objects, edited start vectors: stale caches keyed by object identity), results HELD while later calls are made and verified only afterwards\n"
         "(`Ctx.hold`: shared output buffers), hostile operator ids (negative ids -- `hash(-1) == hash(-2)` in CPython --, huge ids, non-zero identity id) and\n"
-        "charges from -2..2, defective / highly non-normal matrices for the general Krylov branch, sequences of orthonormalisations with edits in between.\n\n"
+        "charges from -2..2, defective / highly non-normal matrices for the general Krylov branch, sequences of orthonormalisations with edits in between;\n"
+        "from round 4 (12 of 20 missed at first -- the agents were told what the checks explore and asked for triggers outside it): magnitudes far outside the\n"
+        "unit range but inside the floating-point range (tensors scaled by exact powers of two up to 2^+-830, matrices up to 1e+-280, chains of hundreds of sites whose\n"
+        "norm drifts towards under/overflow; this also exposed defect F9), charges beyond 2^53, values that coincide with internal constants (parameters equal to operator\n"
+        "ids, coefficients exactly 1.0, integer parameter grids, round parameter points), exact or approximate symmetry of the DATA (exactly antisymmetric integrals,\n"
+        "nearly Hermitian charge blocks), spatial patterns of equal tensors (A-B-A site patterns, impurities), aliasing INSIDE one result (site tensors of a new object\n"
+        "sharing one array: single-site edit probe), option values never used internally (non-zero scalar fill of the MPO constructor), counters (more than 100 time steps\n"
+        "in one call, many sweeps), arguments beyond a branch cut (|Im dt| > pi), adversarial combinatorial structure (one augmenting path length per Hopcroft-Karp phase),\n"
+        "and classes that had been excused too generously (the over-complete-bond class of C09 was split by a structure classifier).\n\n"
         "Note on the repository suite: `test_krylov.py::test_eigh_krylov` fails in about 2 % of runs on the unchanged tree (12 of 600 seeded replays of its body, the\n"
         "same number before and after fix `3c1fa1a`): its tolerance on the second Ritz value is statistical. It is unrelated to any change made here.\n")
 d = open('/verif/DESIGN.md').read()
